@@ -382,7 +382,11 @@ func posStr(p *Prog, i ssa.Instruction) string {
 // http.Error(…,400) + return (and, if forget, a connections.Delete).
 func c12ErrTo400(c *Ctx, p *Prog, fn *ssa.Function, call ssa.Instruction, key string, forget bool) {
 	var errVal ssa.Value
-	cv := call.(*ssa.Call)
+	cv, isCall := call.(*ssa.Call)
+	if !isCall {
+		c.Bad("C12.U", key, p, call.Pos(), "the call is started with go/defer: its error cannot decide the answer, calls on a closed session are answered 200")
+		return
+	}
 	nres := cv.Call.Signature().Results().Len()
 	if nres == 1 {
 		errVal = cv
